@@ -23,7 +23,7 @@ REQUIRED_MONITORS = ["graphs:tracked", "prune:non-float-calls", "prune:same-scal
                      "reachability:paths-checked", "input-graph:snapshot-compared"]
 REQUIRED_REACH = {"transforms/_track_scales.py": ["_prune", "prune_non_float_tensors", "prune_same_scale_tensors", "prune_selected_nodes",
                                                   "_metrics_same_scale", "_directions_same_scale", "_filter_float_tensors"]}
-MIN_NONTRIVIAL = {"quick": 150, "thorough": 3000}
+MIN_NONTRIVIAL = {"quick": 150, "thorough": 5000}
 FORMS = ["embedding", "nn_gelu", "bias_kw"]
 
 
